@@ -5,6 +5,9 @@ tie             : correspondence -- the real assert_equivalent_dimension / valid
                   Gallina model are run on the same seeded inputs; plus the catalogue's guard table."""
 from __future__ import annotations
 
+import json
+import os
+
 import ast
 import importlib
 import inspect
@@ -372,6 +375,11 @@ def stream_calls(ctx, n):
             params = names[:nparams]
             dims = [rand_dimvec(rng) for _ in params]
             vals = [gval(v, a, 0.25) for (v, a) in dims]
+            if nparams >= 2 and rng.random() < 0.2:
+                # aliasing: the very same object is passed for two parameters (declared with different dimensions, so it is
+                # wrong for at least one of them); every parameter is judged on its own declaration
+                i, j = rng.sample(range(nparams), 2)
+                vals[j] = vals[i]
             guards = {}
             guards_lit = []
             for i, p in enumerate(params):
@@ -459,6 +467,34 @@ def stream_history(ctx, n):
             cases.append({"lit": f"({alit}, {elit}, {verdict_lit(v)})", "arg": a, "exp": exp, "impl": v, "msg": msg, "kind": "history",
                 "desc": f"call #{step + 1} of a sequence on one guarded function (declared {xdesc}), context={how}: {a}"})
     return cases
+
+
+def stream_interpreter_modes(ctx):
+    """The gate must refuse in every interpreter mode (it is not an `assert`): fixed guarded calls whose verdict the property
+    text fixes are run in child interpreters started as python and python -O."""
+    import subprocess  # pylint: disable=import-outside-toplevel
+    from vp import c04_probe, common  # pylint: disable=import-outside-toplevel
+    probe = str(common.VERIF / "harness" / "vp" / "c04_probe.py")
+    env = dict(os.environ, PYTHONPATH=str(common.REPO), PYTHONDONTWRITEBYTECODE="1")
+    n = 0
+    for flags in ([], ["-O"]):   # (-OO strips docstrings and SymPy 1.14 itself no longer imports: not a mode the library can run in)
+        mode = "python " + " ".join(flags)
+        try:
+            r = subprocess.run([common.PYTHON, *flags, probe], capture_output=True, text=True, timeout=600, env=env, check=False)
+            data = json.loads(r.stdout)
+        except Exception as e:  # pylint: disable=broad-except
+            ctx.violation(f"C04:modes:{mode.strip()}:probe-failed", f"the probe of guarded calls did not run under `{mode}`: {type(e).__name__}: {e}"[:300],
+                {"kind": "broken-tie", "mode": mode, "stderr": (r.stderr[-800:] if "r" in locals() else "")}, found_input=False)
+            continue
+        for name, verdict in data["verdicts"]:
+            n += 1
+            want = c04_probe.EXPECTED[name]
+            if verdict != want:
+                ctx.violation(f"C04:modes:{mode.strip()}:{name}", f"under `{mode}` the guarded call {name} gave {verdict or 'a normal return'}, "
+                    f"the property requires {want or 'a normal return'}",
+                    {"kind": "violation", "stream": "interpreter-modes", "mode": mode, "call": name, "observed": verdict, "required": want,
+                     "how": f"PYTHONPATH={common.REPO} {common.PYTHON} {' '.join(flags)} {probe}"}, True)
+    return n
 
 
 def stream_qvec(ctx, n):
@@ -794,6 +830,10 @@ def run(ctx):
     ctx.coverage["verdict_histogram"] = {f"{k[0]}:{k[1]}": v for k, v in sorted(hist.items(), key=str)}
     ctx.coverage["disagreements"] = len(bad) + len(bad2) + len(bad3) + len(bad4)
 
+    nm = stream_interpreter_modes(ctx)
+    ctx.evaluated(nm, nm // 2)
+    hist[("interpreter-modes", "calls")] = nm
+    ctx.coverage["verdict_histogram"] = {f"{k[0]}:{k[1]}": v for k, v in sorted(hist.items(), key=str)}
     ctx.log("streams done")
     catalogue(ctx)
     ctx.log("catalogue done")
